@@ -1,0 +1,13 @@
+//go:build verif
+
+package encryption
+
+// Machine-checked contracts (comment-only; compiled to nothing). Checked by /verif/bin/stfsvc.
+
+//@ func DecryptHeader
+//@   property C08
+//@   modifies *, hdrVerified[hdr], hdrSubstituted[hdr], hashInput
+
+//@ func DecryptString
+//@   property C08
+//@   modifies *, hashInput
